@@ -259,7 +259,79 @@ def gen_stress(rng, tier):
     return C.sx(c)
 
 
+def pre_predicate(line, obs):
+    """sequential calls, some with an already-cancelled context: replay on the reference queue"""
+    t = C.parse_sx(line)
+    ops = next(x for x in t[1:] if isinstance(x, list) and x and x[0] == "ops")[1:]
+    if " | " not in obs:
+        return "unparsable observation " + obs[:80]
+    outs, state = obs.split(" | ", 1)
+    outs = outs.split(";") if outs else []
+    q = RefQueue(cfg_of(line))
+    for i, op in enumerate(ops):
+        if i >= len(outs):
+            return f"no result for op {i} {C.sx(op)}"
+        k = op[0]
+        if k == "add":
+            want = q.do_add(int(op[1]))
+        elif k in ("badd", "baddc"):
+            if q.closed:
+                want = "closed"
+            elif q.tr.has_room():
+                want = q.do_add(int(op[1]))
+            else:
+                want = "ctx" if k == "baddc" else None
+        elif k == "remove":
+            want = str(q.pop()) if q.items else "none"
+        elif k in ("waitc", "recvc"):
+            want = str(q.pop()) if q.items else ("closed" if q.closed else "ctx")
+        elif k == "len":
+            want = str(len(q.items))
+        elif k == "close":
+            q.closed = True; want = "ok"
+        else:
+            return "bad op " + k
+        if want is None:
+            return None      # a blocking call with a live context that has to wait: the generator avoids it
+        if outs[i] != want:
+            return (f"op {i} {C.sx(op)} returned {outs[i]} but the sequential rules say {want}"
+                    + (" (a call made with an already-cancelled context either completes or has no effect)" if k.endswith("c") else ""))
+    want_state = f"len={len(q.items)} closed={int(q.closed)} items=[{','.join(str(v) for _, v in q.items)}]"
+    if state != want_state:
+        return f"final state `{state}` but the sequential history leaves `{want_state}`"
+    return None
+
+
+def gen_pre(rng):
+    kind = rng.random()
+    if kind < 0.4:
+        cfg = ["cfg", "unlimited"]
+    else:
+        hard = rng.choice([1, 2, 3, 4, 6]); soft = rng.choice([0] + list(range(1, hard + 1)))
+        cfg = ["cfg", "soft", hard, soft, rng.choice([0, 1, 1, 3]), rng.choice([1, 2])]
+    ops = []
+    for _ in range(rng.choice([3, 6, 12, 25])):
+        k = rng.random()
+        if k < 0.30:
+            ops.append(["add", rng.randrange(1, 30)])
+        elif k < 0.45:
+            ops.append(["baddc", rng.randrange(1, 30)])
+        elif k < 0.60:
+            ops.append(["recvc"])
+        elif k < 0.72:
+            ops.append(["waitc"])
+        elif k < 0.84:
+            ops.append(["remove"])
+        elif k < 0.94:
+            ops.append(["len"])
+        else:
+            ops.append(["close"])
+    return C.sx(["qpre", cfg, ["ops"] + ops])
+
+
 def full_predicate(line, obs):
+    if line.startswith("(qpre"):
+        return pre_predicate(line, obs)
     if line.startswith("(qstress"):
         return stress_predicate(line, obs)
     if obs.startswith("probe"):
@@ -326,6 +398,8 @@ def gen_case(rng, mix, nthreads=None, nchoices=None):
 
 
 def features(line, obs):
+    if line.startswith("(qpre"):
+        return ["pre"] + ["pre:" + k for k in ("baddc", "recvc", "waitc", "close") if "(" + k in line] + (["pre:ctx"] if obs and "ctx" in obs else [])
     if line.startswith("(qstress") or line.startswith("(dstress"):
         return ["stress:" + line.split("(kind ")[1].split(")")[0]]
     if "probe" in line:
@@ -346,6 +420,8 @@ def features(line, obs):
 
 
 def nontrivial(line, obs):
+    if line.startswith("(qpre"):
+        return obs is not None and "ctx" in obs
     if line.startswith("(qstress"):
         return obs is not None
     return obs is not None and "park:" in obs and "wake=[" in obs
